@@ -196,9 +196,12 @@ pub fn decompress_async<'a>(
         Compression::Brotli => Ok(Box::new(AsyncBrotliDecoder::new(BufReader::new(
             compressed_data,
         )))),
-        Compression::ZStd => Ok(Box::new(AsyncZstdDecoder::new(BufReader::new(
-            compressed_data,
-        )))),
+        Compression::ZStd => {
+            // decode all frames of the data, like the sync `zstd::Decoder` does
+            let mut decoder = AsyncZstdDecoder::new(BufReader::new(compressed_data));
+            decoder.multiple_members(true);
+            Ok(Box::new(decoder))
+        }
     }
 }
 
